@@ -80,6 +80,10 @@ def run(repo, run, tier):
     solved_not_predicted(repo, run)
     from .common import instance_tables_are_class_tables
     instance_tables_are_class_tables(repo, run, "C11.8")
+    # ... and the number the integrator compares with that tolerance is the RESIDUAL of the stage equations at every return site of the front end (a step length in
+    # that slot accepts an unconverged - essentially explicit - stage vector whenever the solver stalls)
+    from .c15 import slots
+    slots(repo, run, rule_id="C11.9")
 
 
 # ------------------------------------------------------------------------------------------------
